@@ -57,7 +57,7 @@ func PromiseCAS(c *core.Ctx) {
 	c.Rule("R-CAS-ONLY", "the status cell of a Promise is written only by CompareAndSwap against the *ValuePtr obtained from Get() in the same function; no Store on an atomic.Reference outside package internal/atomic")
 	c.Rule("R-FINAL", "inside a status type switch, the case for a completed promise (fp.Try) performs no CompareAndSwap/Store: the first assignment is final")
 	c.Rule("R-RETRY", "every CompareAndSwap is the condition of an if whose true branch returns and whose false continuation re-enters (self call or enclosing loop): a lost race is retried, never dropped")
-	c.Rule("R-DELIVER", "Complete calls every element of the listener list returned by the completing CAS (range, call in the body, no early exit); the completing case returns the loaded list itself")
+	c.Rule("R-DELIVER", "Complete calls every element of the listener list returned by the completing CAS (a range or full index loop over the list, the element called in the body, no early exit); the completing case returns the loaded list itself")
 	c.Rule("R-REGISTER", "in a function registering a call-back parameter cb, every case of the status switch uses cb (calls it with the completed value, or puts it into the value handed to CompareAndSwap)")
 	p := c.Pkg("fp")
 	info := p.TypesInfo
@@ -370,14 +370,53 @@ func PromiseCAS(c *core.Ctx) {
 			good := false
 			why := "the listener list returned by " + callee.Name() + " is not ranged over"
 			ast.Inspect(fb.Body, func(m ast.Node) bool {
-				rs, ok := m.(*ast.RangeStmt)
-				if !ok || objOf(info, rs.X) != listObj || rs.Value == nil {
+				// accepted loop forms: `for _, cb := range list { cb(…) }`, `for i := range list { list[i](…) }`,
+				// `for i := 0; i < len(list); i++ { list[i](…) }`
+				var body *ast.BlockStmt
+				var elem, idx types.Object
+				switch lp := m.(type) {
+				case *ast.RangeStmt:
+					if objOf(info, lp.X) != listObj {
+						return true
+					}
+					body = lp.Body
+					if lp.Value != nil {
+						elem = objOf(info, lp.Value)
+					} else if lp.Key != nil {
+						idx = objOf(info, lp.Key)
+					}
+				case *ast.ForStmt:
+					init, ok1 := lp.Init.(*ast.AssignStmt)
+					cond, ok2 := lp.Cond.(*ast.BinaryExpr)
+					post, ok3 := lp.Post.(*ast.IncDecStmt)
+					if !ok1 || !ok2 || !ok3 || len(init.Lhs) != 1 || len(init.Rhs) != 1 || exprString(init.Rhs[0]) != "0" || cond.Op != token.LSS || post.Tok != token.INC {
+						return true
+					}
+					i := objOf(info, init.Lhs[0])
+					lc, isLen := ast.Unparen(cond.Y).(*ast.CallExpr)
+					if i == nil || objOf(info, cond.X) != i || objOf(info, post.X) != i || !isLen || !isBuiltinCall(info, lc, "len") || objOf(info, lc.Args[0]) != listObj {
+						return true
+					}
+					body, idx = lp.Body, i
+				default:
 					return true
 				}
-				elem := objOf(info, rs.Value)
+				if body == nil || (elem == nil && idx == nil) {
+					return true
+				}
+				rs := struct{ Body *ast.BlockStmt }{body}
 				calls := nodeContains(rs.Body, false, func(x ast.Node) bool {
 					cl, ok := x.(*ast.CallExpr)
-					return ok && objOf(info, cl.Fun) == elem
+					if !ok {
+						return false
+					}
+					if elem != nil && objOf(info, cl.Fun) == elem {
+						return true
+					}
+					if ix, ok := ast.Unparen(cl.Fun).(*ast.IndexExpr); ok && idx != nil && objOf(info, ix.X) == listObj && objOf(info, ix.Index) == idx {
+						return true
+					}
+					return false
 				})
 				early := nodeContains(rs.Body, false, func(x ast.Node) bool {
 					switch b := x.(type) {
@@ -779,5 +818,5 @@ func AtomicCell(c *core.Ctx, rule string) {
 			return true
 		})
 	}
-	c.Floor(rule, "accesses of the atomic cell", n, 4)
+	c.Floor(rule, "accesses of the atomic cell", n, 2)
 }
